@@ -45,15 +45,22 @@ def one(d, prop, name):
         print(name, verified, {c: caught[c]["rc"][-4:] for c in caught}, flush=True)
 
 
-def prop_worker(prop):
-    for d in sorted(glob.glob(os.path.join(root, prop, "mutout", "m*"))):
-        name = "%s-%s" % (prop, os.path.basename(d))
+def prop_worker(group):
+    for d in sorted(glob.glob(os.path.join(root, group, "mutout", "m*"))):
+        name = "%s-%s" % (group, os.path.basename(d))
         if name in res:
             continue
+        prop = group
+        if not (len(group) == 3 and group[0] == "C"):
+            # file-focused round: the property a change breaks is named in its meta.json
+            try:
+                prop = json.load(open(os.path.join(d, "meta.json")))["property"].strip()[:3]
+            except Exception:
+                prop = "C20"
         one(d, prop, name)
 
 
-props = sorted(os.path.basename(p) for p in glob.glob(os.path.join(root, "C??")) if os.path.isdir(p))
+props = sorted(os.path.basename(p) for p in glob.glob(os.path.join(root, "???")) if os.path.isdir(p))
 if want:
     props = [p for p in props if p in want]
 sem = threading.Semaphore(j)
